@@ -1,16 +1,17 @@
 //! Verification hooks for C07 (add-only, compiled only with `--cfg samlang_verif`): a record of the
-//! abstract patterns `check_match` / `check_declaration_statement` / `check_if_else` built, in the
-//! order they were built. With the cfg off this file is not compiled and nothing is recorded.
+//! abstract pattern lists handed to the two entry points of the exhaustiveness analysis
+//! (`is_additional_pattern_useful`, `incomplete_counterexample`), in call order. With the cfg off
+//! this file is not compiled and nothing is recorded.
 use super::pattern_matching::{AbstractPatternNode, verif_hooks::render};
 use std::sync::Mutex;
 
-static RECORDS: Mutex<Vec<(u32, &'static str, Vec<String>)>> = Mutex::new(Vec::new());
+static RECORDS: Mutex<Vec<(&'static str, Vec<String>)>> = Mutex::new(Vec::new());
 
-pub(crate) fn record(line: u32, kind: &'static str, nodes: &[AbstractPatternNode]) {
-  RECORDS.lock().unwrap().push((line, kind, nodes.iter().map(render).collect()));
+pub(crate) fn record(entry: &'static str, nodes: &[AbstractPatternNode]) {
+  RECORDS.lock().unwrap().push((entry, nodes.iter().map(render).collect()));
 }
 
-/// (0-based start line of the construct, "match" | "let" | "iflet", rendered abstract patterns)
-pub fn take() -> Vec<(u32, &'static str, Vec<String>)> {
+/// ("useful" | "counterexample", rendered abstract patterns of the existing rows), oldest first
+pub fn take() -> Vec<(&'static str, Vec<String>)> {
   std::mem::take(&mut *RECORDS.lock().unwrap())
 }
